@@ -531,11 +531,10 @@ func run(c *vf.Ctx) {
 	// ---- longer sequences for Posterior(state-set sequence) (fifth seeding round, seed C15-10):
 	// the restricted forward recursion alternates two buffers, so what step k leaves behind is
 	// read again at step k+2 and, through it, at k+3; up to length 3 no such read exists. All
-	// sequences of non-empty state subsets at lengths 4 and 5 (thorough 6; m=3 at length 4)
+	// sequences of non-empty state subsets at lengths 4 and 5 (thorough 6, and Real64 with derivatives at length 4)
 	r.sweepGeneric(2, bounds{piAlph: half, trAlph: half, emAlph: []float64{1, 0.5}, nmin: 4, nmax: 5, postN: 5}, "float64", 0)
 	if thorough {
-		r.sweepGeneric(2, bounds{piAlph: half, trAlph: half, emAlph: []float64{1, 0.5, 0}, nmin: 6, nmax: 6, postN: 6}, "float64", 0)
-		r.sweepGeneric(3, bounds{piAlph: binary, trAlph: half, emAlph: []float64{1, 0}, nmin: 4, nmax: 4, postN: 4}, "float64", 0)
+		r.sweepGeneric(2, bounds{piAlph: half, trAlph: half, emAlph: []float64{1, 0.5}, nmin: 6, nmax: 6, postN: 6}, "float64", 0)
 		r.sweepGeneric(2, bounds{piAlph: binary, trAlph: half, emAlph: []float64{1, 0.5}, nmin: 4, nmax: 4, postN: 4}, "real64", 1)
 	}
 
